@@ -48,15 +48,15 @@ fn main() {
                 "C03" => ({ let mut v = gen_basic::gen_c03(&mut rng, thorough); v.extend(gen_net2::gen_c03_net(&mut rng, thorough)); v }, gen_basic::fals_c03(&mut frng, thorough)),
                 "C02" => (gen_net::gen_c02(&mut rng, thorough), fals_b::fals_c02(&mut frng, thorough)),
                 "C08" => (gen_net::gen_c08(&mut rng, thorough), fals_b::fals_c08(&mut frng, thorough)),
-                "C01" => (gen_net::gen_c01(&mut rng, thorough), fals_a::fals_c01(&mut frng, thorough)),
+                "C01" => ({ let mut v = gen_net::gen_c01(&mut rng, thorough); for f in [0usize, 1, 3, 4] { v.extend(gen_net2::gen_scripts(&mut rng, thorough, f, "c01")); } v }, fals_a::fals_c01(&mut frng, thorough)),
                 "C11" => (gen_net2::gen_c11(&mut rng, thorough), fals_b::fals_c11(&mut frng, thorough)),
-                "C10" => (gen_net2::gen_c10(&mut rng, thorough), fals_c::fals_c10(&mut frng, thorough)),
+                "C10" => ({ let mut v = gen_net2::gen_c10(&mut rng, thorough); v.extend(gen_net2::gen_scripts(&mut rng, thorough, 1, "c10")); v }, fals_c::fals_c10(&mut frng, thorough)),
                 "C16" => (gen_net2::gen_c16(&mut rng, thorough), fals_a::fals_c16(&mut frng, thorough)),
                 "C17" => (gen_net2::gen_c17(&mut rng, thorough), fals_b::fals_c17(&mut frng, thorough)),
-                "C04" => (gen_net2::gen_c04(&mut rng, thorough), fals_c::fals_c04(&mut frng, thorough)),
-                "C13" => (gen_net2::gen_c13(&mut rng, thorough), fals_c::fals_c13(&mut frng, thorough)),
-                "C09" => ({ let mut v = gen_net2::gen_c09(&mut rng, thorough); v.extend(gen_net2::gen_c09_blocks(&mut rng, thorough)); v }, fals_c::fals_c09(&mut frng, thorough)),
-                "C12" => (gen_net2::gen_c12(&mut rng, thorough), fals_c::fals_c12(&mut frng, thorough)),
+                "C04" => ({ let mut v = gen_net2::gen_c04(&mut rng, thorough); for f in [0usize, 1, 3] { v.extend(gen_net2::gen_scripts(&mut rng, thorough, f, "c04")); } v }, fals_c::fals_c04(&mut frng, thorough)),
+                "C13" => ({ let mut v = gen_net2::gen_c13(&mut rng, thorough); v.extend(gen_net2::gen_scripts(&mut rng, thorough, 2, "c13")); v }, fals_c::fals_c13(&mut frng, thorough)),
+                "C09" => ({ let mut v = gen_net2::gen_c09(&mut rng, thorough); v.extend(gen_net2::gen_c09_blocks(&mut rng, thorough)); for f in [0usize, 1] { v.extend(gen_net2::gen_scripts(&mut rng, thorough, f, "c09")); } v }, fals_c::fals_c09(&mut frng, thorough)),
+                "C12" => ({ let mut v = gen_net2::gen_c12(&mut rng, thorough); for f in [0usize, 4] { v.extend(gen_net2::gen_scripts(&mut rng, thorough, f, "c12")); } v }, fals_c::fals_c12(&mut frng, thorough)),
                 "C05" => (gen_net2::gen_c05(&mut rng, thorough), gen_net2::fals_c05(&mut frng, thorough)),
                 _ => {
                     eprintln!("no generator for {}", prop);
